@@ -2,10 +2,10 @@ use tau_engine::{Rule, Document, Value};
 use tau_engine::core::optimiser;
 fn try_rule(y: &str, docs: &[&str]) {
     let rule = match Rule::from_str(y) { Ok(r) => r, Err(e) => { println!("LOAD ERR {}", e); return; } };
-    for (c,s,r,m) in [(true,false,false,false),(true,false,false,true),(true,true,true,true),(false,false,false,true)] {
+    for (c,s,r,m) in [(true,false,false,false),(true,false,false,true),(true,true,true,true),(false,false,false,true),(false,true,false,false),(false,true,true,true)] {
         let o = Rule::from_str(y).unwrap().optimise(tau_engine::Optimisations{coalesce:c,shake:s,rewrite:r,matrix:m});
         for d in docs {
-            let v: serde_json::Value = serde_json::from_str(d).unwrap(); println!("EXPR {}", o.detection.expression);
+            let v: serde_json::Value = serde_json::from_str(d).unwrap(); println!("EXPR {} IDS {:?}", o.detection.expression, o.detection.identifiers.iter().map(|(k,v)| format!("{}={}",k,v)).collect::<Vec<_>>());
             let a = rule.matches(&v);
             let b = std::panic::catch_unwind(|| o.matches(&v));
             println!("opt c{} s{} r{} m{} doc {} plain={} opt={:?}", c,s,r,m, d, a, b);
